@@ -18,11 +18,12 @@ func init() {
 		r.floor("R4", 1)
 	}, checkC10)
 	register("C13", func(r *Report) {
-		r.Explanation = "Decides the no-leak / join / close structure for every termination cause: (R1) the session function joins its goroutines: every return reachable after the first goroutine was spawned passes the group's Wait, and a cancel of a context the group derives from is deferred before the first spawn; (R2) cancellation discipline: every blocking select and bare channel receive in package gateway and util.ConnWithContext has a case on a context's or transaction's Done(), every such context derives from the session/function context (never from context.Background() inside a session goroutine), ConnWithContext.Read/Write re-check the context in every retry iteration (no cycle avoids the check) and set the deadline before each attempt; (R3) the receive loops return the error of ReadPacket and of the dispatcher (context.Canceled -> nil; io.EOF -> sentinel/ErrMqttConnClosed): no path from a failed read or dispatch back to the loop head; (R4) the shutdown goroutine sends DISCONNECT exactly when the state is Active or Awake, and the plain-DISCONNECT path sets Disconnected before returning the clean-shutdown sentinel (so no second DISCONNECT); (R5) the broker connection is closed on every exit after the dial (C10-R4); (R6) the context of the client connection's wrapper is rooted at context.Background() and cancelled only after the shutdown goroutine's last send, so the DISCONNECT sent on session end is really written; (R7) every goroutine of the session's errgroup observes the group's context, or a context that a member waiting for the group context cancels. Not decided: the numeric bound; OS-level blocking inside net.Conn."
+		r.Explanation = "Decides the no-leak / join / close structure for every termination cause: (R1) the session function joins its goroutines: every return reachable after the first goroutine was spawned passes the group's Wait, and a cancel of a context the group derives from is deferred before the first spawn; (R2) cancellation discipline: every blocking select and bare channel receive in package gateway and util.ConnWithContext has a case on a context's or transaction's Done(), every such context derives from the session/function context (never from context.Background() inside a session goroutine), ConnWithContext.Read/Write re-check the context in every retry iteration (no cycle avoids the check) and set the deadline before each attempt; (R3) the receive loops return the error of ReadPacket and of the dispatcher (context.Canceled -> nil; io.EOF -> sentinel/ErrMqttConnClosed): no path from a failed read or dispatch back to the loop head; (R4) the shutdown goroutine sends DISCONNECT exactly when the state is Active or Awake, and the plain-DISCONNECT path sets Disconnected before returning the clean-shutdown sentinel (so no second DISCONNECT); (R5) the broker connection is closed on every exit after the dial (C10-R4); (R6) the context of the client connection's wrapper is rooted at context.Background() and cancelled only after the shutdown goroutine's last send, so the DISCONNECT sent on session end is really written; (R7) every goroutine of the session's errgroup observes the group's context, or a context that a member waiting for the group context cancels; (R8) lock discipline in packages gateway, transactions and util: nothing waits under a lock and no call made under a lock - including the completion of a transaction, which runs its finally callback - reaches code that acquires the same lock. Not decided: the numeric bound; OS-level blocking inside net.Conn."
 		r.floor("R1", 1)
 		r.floor("R2", 5)
 		r.floor("R6", 1)
 		r.floor("R7", 2)
+		r.floor("R8", 2)
 		r.floor("R3", 2)
 		r.floor("R4", 4)
 	}, checkC13)
@@ -647,6 +648,9 @@ func checkC13(c *Ctx, r *Report) {
 	c.checkSnConnContext(r, run)
 	// R7: every member of the session's errgroup observes the group context (or a context a waiting member cancels)
 	c.checkGroupContexts(r, "R7", "gateway")
+	// R8: lock discipline on the session's paths (a self-deadlock in the teardown keeps the session function from
+	// returning: the broker connection is never closed)
+	c.checkLockDiscipline(r, "R8", c.newLockInfo(), []string{"gateway", "transactions", "util"})
 }
 
 // checkSnConnContext: R6 of C13. The shutdown goroutine sends the DISCONNECT
@@ -1023,8 +1027,45 @@ func (c *Ctx) checkReceiveLoops(r *Report, rel string) {
 			if reach, _ := pathExists(f, errTrue.Instrs[0], func(x ssa.Instruction) bool { return x == ssa.Instruction(rd) }, nil); reach || errTrue.Instrs[0] == ssa.Instruction(rd) {
 				r.bad("R3", key, c.instrPos(rd), "after a failed read the receive loop continues instead of returning (decode errors / closed connections do not end the session)")
 			} else {
-				// and it returns non-nil except for context.Canceled
-				r.ok("R3", key, c.instrPos(rd), "every path after a failed read returns")
+				// and it returns non-nil except for context.Canceled: a nil result does not cancel the errgroup, the
+				// session would stay up with a dead connection
+				badNil := ""
+				seenB := map[*ssa.BasicBlock]bool{}
+				var walk func(b *ssa.BasicBlock)
+				walk = func(b *ssa.BasicBlock) {
+					if seenB[b] {
+						return
+					}
+					seenB[b] = true
+					if ret, ok := b.Instrs[len(b.Instrs)-1].(*ssa.Return); ok && len(ret.Results) > 0 && isNilConst(retVal(ret, len(ret.Results)-1)) {
+						cancelled := false
+						for _, g := range guardsOf(b) {
+							x, y, op, isCmp := cmpGuard(g)
+							if !isCmp || op != token.EQL {
+								continue
+							}
+							for _, v := range []ssa.Value{x, y} {
+								if u, ok := v.(*ssa.UnOp); ok {
+									if gl, ok := u.X.(*ssa.Global); ok && gl.Name() == "Canceled" && gl.Pkg != nil && gl.Pkg.Pkg.Path() == "context" {
+										cancelled = true
+									}
+								}
+							}
+						}
+						if !cancelled {
+							badNil = c.instrPos(ret)
+						}
+					}
+					for _, s := range b.Succs {
+						walk(s)
+					}
+				}
+				walk(errTrue)
+				if badNil != "" {
+					r.bad("R3", key, c.instrPos(rd), "after a failed read the receive loop returns nil ("+badNil+") for an error other than context.Canceled: a nil result does not cancel the session's errgroup, so the session stays up with a closed connection and its resources are not released")
+				} else {
+					r.ok("R3", key, c.instrPos(rd), "every path after a failed read returns, with a non-nil result unless the error is context.Canceled")
+				}
 			}
 			// dispatcher error
 			k2 := fnKey(f) + ":dispatch-error-ends-loop"
